@@ -5,6 +5,8 @@ import Schc.Spec.Coap
 namespace Schc
 open Bits Spec
 
+theorem idx_zero_cons' (x : Nat) (xs : List Nat) : idx (x :: xs) 0 = .ok x := rfl
+
 theorem nib_lt (x : Nat) : nib x < 16 := by unfold nib; split <;> (try split) <;> omega
 
 theorem ext_length (x : Nat) : (ext x).length = if x < 13 then 0 else if x < 269 then 8 else 16 := by
@@ -331,7 +333,7 @@ theorem coapParse_encoded (hdr token : Bits) (os : List CoapOption) (tail : Bits
     rw [List.drop_append_of_le_length (by omega), List.take_append_of_le_length (by simp; omega)]
   have hc4 := content_left4 (b.slice 4 8) rfl (by rw [hsl]; simp; omega)
   have hval : (b.slice 4 8).value = Bits.toNat ((hdr.drop 4).take 4) := by simp only [ABuf.value, hsl]
-  rw [htkl, hc4, idx_zero_cons]
+  rw [htkl, hc4, idx_zero_cons']
   simp only [hval]
   generalize htkv : Bits.toNat ((hdr.drop 4).take 4) = tkl at *
   have htoken : b.slice 32 (32 + tkl * 8) = ⟨token, .left⟩ := by
